@@ -57,7 +57,8 @@ fn one<X: Sx, Y: Sx>(ctx: &Ctx, idx: u64, l: usize, hdr_class: usize, msg_class:
     let msgs = gen_messages(&mut r, l, msg_class);
     // prior history on this thread: the same key signs and verifies lists of other sizes first, so that
     // any state kept between calls (caches keyed too coarsely, extended incorrectly) is in place
-    for pre in [l / 2, l.saturating_sub(1), (l + 2) / 3] {
+    let pres: &[usize] = if l <= 64 { &[l / 2, l.saturating_sub(1), (l + 2) / 3] } else { &[l / 2] };
+    for &pre in pres {
         if pre < l {
             let pm = gen_messages(&mut r, pre, msg_class + 1);
             if let Some(ps) = ctx.call("sign", "history", Some(l as u64 + 64), || Sig::<X>::sign(Some(&pm), &sk, &pk, hdr.as_opt())).value {
